@@ -96,10 +96,23 @@ package tokenizers
 //@     invariant sc(scanner).position + 1 <= len(sc(scanner).content)
 //@     decreases len(sc(scanner).content) - sc(scanner).position
 
-// A15 (trusted, not verified): building the expression tokenizer (state objects, symbol and keyword tables) terminates
-// without a panic; it runs once per parser and has no input
-//@ func NewExpressionTokenizer
+// A15 (trusted, not verified): building the symbol tree of the expression tokenizer (six Add calls on a fresh tree) terminates
+// without a panic and writes nothing but the tree; it runs once per tokenizer and has no input
+//@ func NewExpressionSymbolState
 //@   ensures fresh(result) && result != nil
 //@   assigns nothing
 //@   nopanic
 //@   trusted
+// "character -> state dispatch table" of the expression tokenizer, for every character: blanks and below to the whitespace
+// state; ASCII letters, underscore and the Latin-1 letters from U+00C0 to the word state; digits, minus and point to the number
+// state; both quote characters to the quote state; the slash to the comment state; every other character up to U+FFFE -
+// every character from U+0100 included - to the symbol state; nothing above
+//@ spec exprDispatch(t *tokenizers.AbstractTokenizer, ch rune) any =
+//@     ch == 47 ? t.commentState : ((ch == 34 || ch == 39) ? t.quoteState : (((48 <= ch && ch <= 57) || ch == 45 || ch == 46) ? t.numberState :
+//@     (((97 <= ch && ch <= 122) || (65 <= ch && ch <= 90) || (192 <= ch && ch <= 255) || ch == 95) ? t.wordState :
+//@     ((0 <= ch && ch <= 32) ? t.whitespaceState : ((0 <= ch && ch <= 65534) ? t.symbolState : nil)))))
+//@ func NewExpressionTokenizer
+//@   ensures fresh(result) && result != nil && result.AbstractTokenizer != nil && mapInv(result.AbstractTokenizer.mp)
+//@   ensures[C13] forall ch rune :: view(result.AbstractTokenizer.mp, ch) == exprDispatch(result.AbstractTokenizer, ch)
+//@   assigns nothing
+//@   nopanic
